@@ -592,13 +592,123 @@ fn judge_edge_sub_curve(case: &(usize, usize, usize, usize), l: &mut Local) {
     });
 }
 
+/// The sibling helper that returns the piece of a section lying BEYOND a station: the section is cut at the
+/// station's two contact points, and of the two pieces (closed section) the one whose length-weighted mean
+/// projection on the given direction, measured from the station's centre, is larger is returned; on an open
+/// section only one piece exists and it is returned only if it lies ahead. Swept over closed and open outlines
+/// (convex, L-shaped, the flat quadrilateral with a reflex corner) x every pair of cut positions on a grid of arc
+/// lengths x 8 directions; the reference computes both pieces and their mean projections from the vertex list.
+const BEYOND_SHAPES: [(&[(f64, f64)], bool); 6] = [
+    (&[(0.0, 0.0), (10.0, 0.0), (10.0, 2.0), (0.0, 2.0)], true),
+    (&[(0.0, 0.0), (6.0, 0.0), (6.0, 2.0), (2.0, 2.0), (2.0, 5.0), (0.0, 5.0)], true),
+    (&[(-0.5, 0.9), (-1.0, 0.0), (-1.0, 1.0), (10.0, 0.0)], true),
+    (&[(0.0, 0.0), (4.0, 0.0), (4.0, 3.0), (3.0, 3.0), (3.0, 1.0), (1.0, 1.0), (1.0, 3.0), (0.0, 3.0)], true),
+    (&[(0.0, 1.0), (2.0, 0.0), (5.0, 0.0), (8.0, 1.0), (9.0, 3.0)], false),
+    (&[(9.0, 3.0), (8.0, 1.0), (5.0, 0.0), (2.0, 0.0), (0.0, 1.0)], false),
+];
+
+fn judge_beyond_station(case: &(usize, usize, usize, usize), l: &mut Local) {
+    use engeom::airfoil::helpers::extract_curve_beyond_station;
+    use engeom::airfoil::InscribedCircle;
+    use engeom::geom2::polyline2::SpanningRay;
+    let (shape, i, j, di) = *case;
+    let (verts, closed) = BEYOND_SHAPES[shape];
+    let pts: Vec<Point2> = verts.iter().map(|p| Point2::new(p.0, p.1)).collect();
+    let sec = match Curve2::from_points(&pts, 1e-6, closed) {
+        Ok(c) => c,
+        Err(_) => return,
+    };
+    let v = sec.points().to_vec();
+    let per = sec.length();
+    let n = 16;
+    let (la, lb) = (per * (i as f64 + 0.37) / n as f64, per * (j as f64 + 0.61) / n as f64);
+    if (la - lb).abs() < 1e-3 * per {
+        return;
+    }
+    let mk = || json!({"state": {"pts": verts.iter().map(|p| vec![p.0, p.1]).collect::<Vec<_>>(), "tol": 1e-6}, "action": "beyond_station", "args": [shape as f64, i as f64, j as f64, di as f64]});
+    let (a, b) = (sec.at_length(la).unwrap().point(), sec.at_length(lb).unwrap().point());
+    // a cut position must be the unique closest place of the outline to its own point (true except where the
+    // outline touches itself, which these shapes do not)
+    let ang = std::f64::consts::TAU * di as f64 / 8.0 + 0.1;
+    let dir = engeom::UnitVec2::new_normalize(engeom::Vector2::new(ang.cos(), ang.sin()));
+    let centre = Point2::new(0.5 * (a.x + b.x), 0.5 * (a.y + b.y));
+    // contact_pos = a (at la), contact_neg = b (at lb)
+    let st = InscribedCircle::new(SpanningRay::new(b, a), a, b, engeom::Circle2::from_point(centre, 0.5 * d2(&a, &b)));
+    l.eval();
+    let got = match guarded(|| extract_curve_beyond_station(&sec, &st, &dir)) {
+        Ok(g) => g,
+        Err(e) => {
+            l.check("curve beyond a station returns", "panic", false, mk, || e.clone());
+            return;
+        }
+    };
+    // reference pieces from the vertex list: from arc length x to arc length y going forward (through the seam
+    // on a closed outline)
+    let cum: Vec<f64> = { let mut c = vec![0.0]; for w in v.windows(2) { let t = c[c.len() - 1] + d2(&w[0], &w[1]); c.push(t); } c };
+    let at = |x: f64| -> Point2 { let k = (0..v.len() - 1).find(|k| x <= cum[*k + 1]).unwrap_or(v.len() - 2); let f = (x - cum[k]) / (cum[k + 1] - cum[k]); v[k] + (v[k + 1] - v[k]) * f };
+    let piece = |x: f64, y: f64| -> Option<Vec<Point2>> {
+        let mut out = vec![at(x)];
+        if x < y {
+            out.extend((0..v.len()).filter(|k| cum[*k] > x + 1e-9 && cum[*k] < y - 1e-9).map(|k| v[k]));
+        } else if closed {
+            out.extend((0..v.len()).filter(|k| cum[*k] > x + 1e-9).map(|k| v[k]));
+            out.extend((1..v.len()).filter(|k| cum[*k] < y - 1e-9).map(|k| v[k]));
+        } else {
+            return None;
+        }
+        out.push(at(y));
+        Some(out)
+    };
+    let weight = |p: &Vec<Point2>| -> f64 {
+        let mut tot = 0.0;
+        let mut len = 0.0;
+        for w in p.windows(2) {
+            let e = d2(&w[0], &w[1]);
+            tot += 0.5 * ((w[0] - centre).dot(&dir) + (w[1] - centre).dot(&dir)) * e;
+            len += e;
+        }
+        tot / len
+    };
+    let (p0, p1) = (piece(la, lb), piece(lb, la));
+    let want: Option<Vec<Point2>> = match (&p0, &p1) {
+        (Some(x), Some(y)) => {
+            let (w0, w1) = (weight(x), weight(y));
+            if (w0 - w1).abs() < 1e-6 {
+                l.gray("two pieces equally far ahead of the station");
+                return;
+            }
+            Some(if w0 > w1 { x.clone() } else { y.clone() })
+        }
+        (Some(x), None) | (None, Some(x)) => {
+            let w = weight(x);
+            if w.abs() < 1e-6 {
+                l.gray("single piece neither ahead of nor behind the station");
+                return;
+            }
+            if w > 0.0 { Some(x.clone()) } else { None }
+        }
+        (None, None) => None,
+    };
+    l.bucket(match (closed, want.is_some()) { (true, _) => "beyond a station on a closed outline", (false, true) => "beyond a station on an open outline, piece ahead", (false, false) => "beyond a station on an open outline, piece behind" });
+    l.outcome(hash_of(&(closed, want.is_some(), want.as_ref().map(|w| w.len()))));
+    let plen = |p: &Vec<Point2>| p.windows(2).map(|w| d2(&w[0], &w[1])).sum::<f64>();
+    let ok = match (&got, &want) {
+        (None, None) => true,
+        (Some(c), Some(w)) => (c.length() - plen(w)).abs() <= 1e-5 && d2(&c.at_front().point(), &w[0]) <= 1e-5 && d2(&c.at_back().point(), &w[w.len() - 1]) <= 1e-5,
+        _ => false,
+    };
+    l.check("the curve beyond a station is the piece between its contacts that lies farther along the given direction", "", ok, mk, || {
+        format!("cuts at {} and {} of {}, direction {:?}: got {:?}, expected {:?}", la, lb, per, dir.into_inner(), got.as_ref().map(|c| (c.length(), c.at_front().point(), c.at_back().point())), want.as_ref().map(|w| (plen(w), w[0], w[w.len() - 1])))
+    });
+}
+
 pub fn run(tier: Tier) -> i32 {
     let mut cx = Ctx::new("C04", tier, "model_checking");
-    cx.rule = "explicit-state search: initial states = every vertex sequence over the 3x3 lattice up to the length bound x {open, force-closed} x tol {1e-6, 0.05}; actions = between_lengths over all pairs of critical lengths (0, L, vertex lengths, edge mid/quarter points, vertex +-tol/2, +-2tol, +-100tol, beyond L), the control variant, both splits, both trims, reversal; every produced piece is a successor state (canonical key: vertices rounded to 1e-9, tolerance); reference model = arc-length point function by linear scan; plus the airfoil helper that selects the shorter piece between two cut positions (3 rectangles x 24 x 24 cut positions x 4 fractions). distinct = distinct canonical states expanded".into();
+    cx.rule = "explicit-state search: initial states = every vertex sequence over the 3x3 lattice up to the length bound x {open, force-closed} x tol {1e-6, 0.05}; actions = between_lengths over all pairs of critical lengths (0, L, vertex lengths, edge mid/quarter points, vertex +-tol/2, +-2tol, +-100tol, beyond L), the control variant, both splits, both trims, reversal; every produced piece is a successor state (canonical key: vertices rounded to 1e-9, tolerance); reference model = arc-length point function by linear scan; plus the airfoil helper that selects the shorter piece between two cut positions (3 rectangles x 24 x 24 cut positions x 4 fractions) and the one that selects the piece lying beyond a station (4 closed and 2 open outlines x 16 x 16 cut positions x 8 directions). distinct = distinct canonical states expanded".into();
     let depth = 3;
     let max_states = tier.pick(6_000_000, 30_000_000);
     cx.bounds = json!({"root_seq_len": tier.pick(3, 4), "depth": depth, "max_states": max_states, "tols": [1e-6, 0.05]});
-    cx.require(&["closed state", "open state", "non-initial state", "forward", "through the seam", "end exactly on a vertex", "reversed on open", "out of range", "shorter than tolerance", "control inside", "control through the seam", "split open", "split closed", "trim", "reversal", "no piece short enough", "first candidate piece", "second candidate piece"]);
+    cx.require(&["closed state", "open state", "non-initial state", "forward", "through the seam", "end exactly on a vertex", "reversed on open", "out of range", "shorter than tolerance", "control inside", "control through the seam", "split open", "split closed", "trim", "reversal", "no piece short enough", "first candidate piece", "second candidate piece", "beyond a station on a closed outline", "beyond a station on an open outline, piece ahead", "beyond a station on an open outline, piece behind"]);
     cx.assume("well-posed = in range, not reversed on an open curve, travelled length and |l1-l0| both >= tol; requests within 1e-6*tol of the tolerance boundary, and wrap requests whose raw difference is below tol, are gray");
     cx.assume("pieces are compared with the reference piece as arc-length point functions at 17 abscissae within 4*tol (the curve constructor merges vertices within tol at either end); pieces with an edge shorter than 4*tol are judged but not expanded");
     let (l, states, _emitted, reached, capped) = bfs_par(roots(tier), |s| s.key(), expand, depth, max_states);
@@ -624,12 +734,28 @@ pub fn run(tier: Tier) -> i32 {
     }
     let ls = sweep(&sub, judge_edge_sub_curve);
     cx.absorb(ls);
+    let mut bey = Vec::new();
+    for shape in 0..BEYOND_SHAPES.len() {
+        for i in 0..16 {
+            for j in 0..16 {
+                for di in 0..8 {
+                    bey.push((shape, i, j, di));
+                }
+            }
+        }
+    }
+    let lb = sweep(&bey, judge_beyond_station);
+    cx.absorb(lb);
     cx.finish()
 }
 
 pub fn replay(case: &Val) -> Local {
     let c: Case = serde_json::from_value(case.clone()).expect("case");
     let mut l = Local::new();
+    if c.action == "beyond_station" {
+        judge_beyond_station(&(c.args[0] as usize, c.args[1] as usize, c.args[2] as usize, c.args[3] as usize), &mut l);
+        return l;
+    }
     if c.action == "edge_sub_curve" {
         // the sweep item is recovered from the recorded rectangle, cut positions and fraction index
         let (w, h) = (c.state.pts[1][0], c.state.pts[2][1]);
